@@ -63,6 +63,13 @@ def actCmd (st : ActState) (toks : List String) : ActState × String :=
       if st.files.any (·.name == n) then (st, "ok")
       else ({ st with files := st.files ++ [{ name := n, exec := e, parses := parses = "1", runs := runs = "1" }] }, "ok")
     | _, _ => (st, "bad-op")
+  | ["file", name, exec, parses, runs, refuse] =>
+    -- a file the bus refuses to start (error name `refuse`) before anything is parsed: <servicehelper> and no User=
+    match hexOrEmpty name, hexOrEmpty exec, ofHex refuse with
+    | some n, some e, some r =>
+      if st.files.any (·.name == n) then (st, "ok")
+      else ({ st with files := st.files ++ [{ name := n, exec := e, parses := parses = "1", runs := runs = "1", refuse := some r }] }, "ok")
+    | _, _, _ => (st, "bad-op")
   | ["msg", c, hex] =>
     match c.toNat?, ofHex hex with
     | some c, some bs =>
